@@ -554,6 +554,18 @@ def run(ctx):
     res2 = it.call_function(rt, [m("/html/body/select1")], {}, None, rt.node)
     r6.check(res1 == "${age}" and res2 == "/html/body/select1", "ErrorCleaner._replace_xpath_with_tokens",
              "instance paths are shown as ${name}; body/model paths are left alone", rt.loc(), why_fail=f"{res1!r} {res2!r}")
+    # names that merely look like the document-path markers: a group called `item`, `root`, `html`, a question whose name
+    # starts with `value` - these are instance paths and are shown as ${name}; the markers are a PREFIX of the path
+    # (/html/body, /root/item, /html/head/model/bind) or its END (/item/value), nothing in between
+    for path_, want_ in (("/data/item/value_usd", "${value_usd}"), ("/data/item/values", "${values}"), ("/data/item/value/x", "${x}"), ("/data/html/body", "${body}"), ("/data/root/item", "${item}"),
+                         ("/data/root/item/q", "${q}"), ("/data/item/value", "/data/item/value"), ("/html/body/select1/item/value", "/html/body/select1/item/value"),
+                         ("/root/item/name", "/root/item/name"), ("/html/head/model/bind", "/html/head/model/bind"), ("/data/g/q", "${q}")):
+        it.reset([])
+        try:
+            got_ = it.call_function(rt, [m(path_)], {}, None, rt.node)
+        except Raised as e:
+            got_ = f"raises {e.exc_name}"
+        r6.check(got_ == want_, f"ErrorCleaner._replace_xpath_with_tokens[{path_}]", f"-> {want_}", rt.loc(), why_fail=repr(got_))
     # the whole cleaner on diagnostic lines where an instance path is followed by each kind of character a sentence
     # can continue with: every path is shown as ${name}, whatever follows it
     ov_ = ec.methods.get("odk_validate")
